@@ -177,6 +177,19 @@ def disp_post(check):
                    "against a Python port of the oracle" % len(progs))
 
 
+def dl_post(check):
+    """C07 tier B: main program + two real shared libraries, dlopen / dlclose histories"""
+    import gen_dl
+    import tierb
+    from vfcheck import base_seed
+    progs = gen_dl.programs(check.tier, base_seed() % 1000)
+    tierb.run_programs(check, progs, max_parallel=8, only_prefix=check.prop)
+    check.extra_evidence["tier_b_dlopen_programs"] = len(progs)
+    check.rule += ("; plus tier B: %d generated programs made of a main executable and two real shared libraries "
+                   "(classes, definitions and a method of their own) driven through dlopen / update / calls / dlclose / "
+                   "update histories and compared with the table of the libraries loaded at each point" % len(progs))
+
+
 def clean_emit(check):
     import os, shutil
     emit = os.path.join(check.outdir, "emit")
@@ -207,8 +220,10 @@ def harness_plan(prop, tier, quick, thorough, min_eval=1000, policy=None, extra=
     """quick / thorough: list of (flavour, processes, cases per process)"""
     c = Check(prop, tier, RULES[prop], level=level, assumptions=COMMON_ASSUMPTIONS + (assumptions or []),
               min_evaluations=min_eval)
-    if prop in ("C01", "C02", "C03", "C08", "C15", "C17"):
+    if prop in ("C01", "C02", "C03", "C08", "C09", "C15", "C17"):
         c.post = disp_post
+    if prop == "C07":
+        c.post = dl_post
     spec = quick if tier == "quick" else thorough
     k = 0
     for flavour, procs, cases in spec:
